@@ -49,6 +49,8 @@ C19 = [
  ("S13-listing-skips-invalid", "violation", [(MAIN, "                println!(\"  {}: Invalid\", pts.0);", "                let _ = pts.0;")], "terminal listing omits entries without a time"),
  ("S14-stdout-error-ignored", "violation", [(MAIN, "            if pts.1.is_ok() {\n                println!(\"  {}: {}\", pts.0, pts.1.unwrap());", "            if pts.1.is_ok() {\n                use std::io::Write;\n                let _ = writeln!(std::io::stdout(), \"  {}: {}\", pts.0, pts.1.unwrap());")], "stdout write errors ignored: exit 0 with a partial listing under ENOSPC/EIO/EPIPE"),
  ("S15-params-append", "violation", [(MAIN, "    let file = File::create(&params_file_path).unwrap_or_else(|_| {\n        panic!(\n            \"Failed to create the geographical and calculation parameters file {}\",", "    let file = std::fs::OpenOptions::new().create(true).write(true).open(&params_file_path).unwrap_or_else(|_| {\n        panic!(\n            \"Failed to create the geographical and calculation parameters file {}\",")], "parameter file opened without truncation: a longer earlier file leaves a garbage tail"),
+ ("S16-rename-error-ignored", "violation", [(MAIN, "    let file = File::create(&output_file).unwrap_or_else(|_| {\n        panic!(\n            \"Failed to create the calculated prayer times output file {}\",\n            &output_file\n        )\n    });", "    let tmp = format!(\"{}.tmp\", output_file);\n    let file = File::create(&tmp).unwrap_or_else(|_| {\n        panic!(\n            \"Failed to create the calculated prayer times output file {}\",\n            &output_file\n        )\n    });\n    struct Mv(String, String);\n    impl Drop for Mv {\n        fn drop(&mut self) {\n            let _ = fs::rename(&self.0, &self.1);\n        }\n    }\n    let _mv = Mv(tmp, output_file.to_string());")], "atomic save through a temporary file whose rename error is ignored: exit 0 without the output file when rename fails"),
+ ("T4-atomic-save-correct", "held", [(MAIN, "    serde_json::to_writer(file, &pts_by_date).unwrap_or_else(|_| {\n        panic!(\n            \"Failed to serialize the calculated prayer times as JSON to the file {}\",\n            &output_file\n        )\n    });", "    serde_json::to_writer(file, &pts_by_date).unwrap_or_else(|_| {\n        panic!(\n            \"Failed to serialize the calculated prayer times as JSON to the file {}\",\n            &output_file\n        )\n    });\n    fs::rename(&tmp, output_file).expect(\"rename\");"), (MAIN, "    let file = File::create(&output_file).unwrap_or_else(|_| {\n        panic!(\n            \"Failed to create the calculated prayer times output file {}\",\n            &output_file\n        )\n    });", "    let tmp = format!(\"{}.tmp\", output_file);\n    let file = File::create(&tmp).unwrap_or_else(|_| {\n        panic!(\n            \"Failed to create the calculated prayer times output file {}\",\n            &output_file\n        )\n    });")], "negative control: correct atomic save (temporary file + checked rename); a crash may leave the temporary file behind, which the property does not forbid"),
  ("T1-threshold-0", "held", [(MAIN, "        365,\n", "        0,\n")], "negative control: always parallel; same output (steps flagged as multi-threaded)"),
  ("T2-pretty-params", "held", [(MAIN, "    serde_json::to_writer(file, &params_config)", "    serde_json::to_writer_pretty(file, &params_config)")], "negative control: parameter file pretty-printed; still round-trips"),
  ("T3-buffered-output", "held", [(MAIN, "    serde_json::to_writer(file, &pts_by_date).unwrap_or_else(|_| {", "    let mut file = std::io::BufWriter::new(file);\n    serde_json::to_writer(&mut file, &pts_by_date).and_then(|_| std::io::Write::flush(&mut file).map_err(serde_json::Error::io)).unwrap_or_else(|_| {")], "negative control: buffered writer with explicit flush (different syscall pattern, same bytes, errors still fatal)"),
@@ -93,7 +95,12 @@ def main():
                 row["replay_tail"] = "\n".join(rr.stdout.strip().splitlines()[-4:])
                 try:
                     c = json.load(open(rp))
-                    row["minimised"] = {"class": c.get("class"), "workers": c["workload"].get("workers"), "days": c["workload"].get("days"), "thr": c["workload"].get("thr"), "steps": len(c["trace"]["tasks"]), "preemptions": len(c["preemptions"])} if "workload" in c else None
+                    if "workload" in c:
+                        row["minimised"] = {"class": c.get("class"), "workers": c["workload"].get("workers"), "days": c["workload"].get("days"), "thr": c["workload"].get("thr"), "steps": len(c["trace"]["tasks"]), "preemptions": len(c["preemptions"])}
+                    elif "scenario" in c:
+                        row["minimised"] = {"class": c.get("class"), "pass": c.get("pass"), "steps": len(c["scenario"]["steps"]), "faults": [f for st in c["scenario"]["steps"] for f in st["faults"]], "edits": len(c["scenario"]["edits"]), "message": c.get("message", "")[:120]}
+                    else:
+                        row["minimised"] = None
                 except Exception as e:
                     row["minimised"] = str(e)
                 os.remove(rp)
